@@ -108,6 +108,35 @@ def replay(case):
     A2 = fa.project(a)
     if A2 != A:
         evs.append({"op": "build", "kind": case["kind"], "calls": tagged, "outs": outs, "A": A2, "after": True})
+        return evs
+    # phase 2: mutate the automaton that has just been queried, and query it again (stale caches would show here)
+    from pyformlang.finite_automaton import Epsilon
+    trs = sorted(((p, y, q) for p, y, q in a), key=lambda t: (not isinstance(t[1], Epsilon), fa.tag(t[0]), fa.tag_sym(t[1]), fa.tag(t[2])))
+    extra = []
+    if trs:
+        p0, y0, q0 = trs[0]                      # an epsilon transition if there is one
+        extra.append(("remove_transition", (p0.value, y0 if isinstance(y0, Epsilon) else y0.value, q0.value)))
+    sts = sorted(a.states, key=fa.tag)
+    if sts:
+        extra.append(("add_final_state", (sts[-1].value,)))
+    for op, args in extra:
+        r = guard.call(getattr(a, op), *args)
+        out = ("ok" if op.startswith("add_") else str(r[1])) if r[0] == "ok" else (r[1] if r[0] == "exc" else "timeout")
+        targs = [fa.tag(args[0]), fa.tag_sym(args[1]), fa.tag(args[2])] if len(args) == 3 else [fa.tag(args[0])]
+        tagged = tagged + [[op] + targs]
+        outs = outs + [out]
+        A3 = fa.project(a)
+        evs.append({"op": "build", "kind": case["kind"], "calls": tagged, "outs": outs, "A": A3, "phase": 2})
+        for q in ("is_empty", "is_deterministic", "is_acyclic"):
+            evs.append(fa.bool_event(q, A3, guard.call(getattr(a, q)), phase=2))
+        r = guard.take(lambda: a.get_accepted_words(3), 400, timeout=2.0)
+        ev = {"op": "get_accepted_words", "A": A3, "n": 3, "items": [], "status": r[0], "exhausted": False, "phase": 2}
+        if r[0] == "ok":
+            ev["items"] = [[fa.tag_sym(x) for x in w] for w in r[1]]
+            ev["exhausted"] = r[2]
+        elif r[0] == "exc":
+            ev["exc"] = r[1]
+        evs.append(ev)
     return evs
 
 
